@@ -1,2 +1,214 @@
-/-! stub: replaced by the Layers group driver -/
-def main : IO Unit := pure ()
+import MesaModel.Model.Layers
+/-!
+Line-protocol driver for the Layers model (C11, C18-layers).  One output line per input line.
+Producer: harness/layers_common.py.
+
+  scenario new|single|multi DIMS CAP GRIDCLASS TORUS    reset   (DIMS = 2x3, CAP = 0 for unbounded,
+                                              GRIDCLASS = moore|vonneumann|hex|-, TORUS = 0|1: harness only)
+  create NAME DTYPE DEFAULT                   create_property_layer / PropertyLayer + add_property_layer
+  new NAME DIMS DTYPE DEFAULT                 a free-standing PropertyLayer
+  attach LID | detach NAME                    add_property_layer(layer) / remove_property_layer(name)
+  lset LID C V | lget LID C                   layer.data[c] (= v)            (C = 1.2)
+  cset NAME C V | cget NAME C                 cell attribute (new) / grid.properties[name] (legacy)
+  setcells LID V COND                         COND = - | gt:3 | lt:3 | ge:3 | le:3 | eq:3 | ne:3 | ufz
+  modify LID ufunc|fn OP V COND               OP = add sub mul max min and or xor (V int | none), neg not (V none)
+  modcell LID C ufunc|fn OP V                 legacy modify_cell
+  grab H LID | hget H C | hset H C V | hdump H
+  dump LID | dumpn NAME | lsel LID COND | agg LID sum|max|min
+  place A C | move A C | remove A | empties
+  select oe=0|1 conds=a:gt:3,b:le:2|- ext=a:hi,b:lo|- masks=s1,l0101|- save=K|-
+
+DTYPE (bool|int|float) only matters to the harness (how values are encoded); the model is untyped.
+-/
+open Mesa.Layers
+
+def words (s : String) : List String := (s.splitOn " ").filter (· ≠ "")
+
+def parseCoord (s : String) : Option Coord := (s.splitOn ".").mapM (·.toNat?)
+
+def parseDims (s : String) : Option (List Nat) := (s.splitOn "x").mapM (·.toNat?)
+
+def isDtype (s : String) : Bool := s = "bool" || s = "int" || s = "float"
+
+def parseCmp (k : String) (t : Int) : Option (Int → Bool) :=
+  match k with
+  | "gt" => some fun x => decide (x > t)
+  | "lt" => some fun x => decide (x < t)
+  | "ge" => some fun x => decide (x ≥ t)
+  | "le" => some fun x => decide (x ≤ t)
+  | "eq" => some fun x => x == t
+  | "ne" => some fun x => x != t
+  | _ => none
+
+/-- a condition that is present -/
+def parsePred (s : String) : Option (Int → Bool) :=
+  match s.splitOn ":" with
+  | ["ufz"] => some fun x => x == 0          -- np.logical_not used as the condition
+  | [k, t] => do parseCmp k (← t.toInt?)
+  | _ => none
+
+/-- `-` = no condition -/
+def parseCond (s : String) : Option (Option (Int → Bool)) :=
+  if s = "-" then some none else (parsePred s).map some
+
+def truthy (x : Int) : Bool := x != 0
+
+def binOp (op : String) (v : Int) : Option (Int → Int) :=
+  match op with
+  | "add" => some fun x => x + v
+  | "sub" => some fun x => x - v
+  | "mul" => some fun x => x * v
+  | "max" => some fun x => if x < v then v else x
+  | "min" => some fun x => if v < x then v else x
+  | "and" => some fun x => boolInt (truthy x && truthy v)
+  | "or" => some fun x => boolInt (truthy x || truthy v)
+  | "xor" => some fun x => boolInt (truthy x != truthy v)
+  | _ => none
+
+def unOp (op : String) : Option (Int → Int) :=
+  match op with
+  | "neg" => some fun x => -x
+  | "not" => some fun x => boolInt (!truthy x)
+  | _ => none
+
+/-- outer `none` = malformed; inner `none` = a ufunc called without its second operand -/
+def parseOper (kind op v : String) : Option (Option (Int → Int)) :=
+  let binary := (binOp op 0).isSome
+  let unary := (unOp op).isSome
+  match kind, v with
+  | "ufunc", "none" => if binary || unary then some none else none
+  | "ufunc", v => if binary then (do let f ← binOp op (← v.toInt?); pure (some f)) else none
+  | "fn", "none" => (unOp op).map some
+  | "fn", v => if binary then (do let f ← binOp op (← v.toInt?); pure (some f)) else none
+  | _, _ => none
+
+def parseList {α : Type} (s : String) (f : String → Option α) : Option (List α) :=
+  if s = "-" then some [] else (s.splitOn ",").mapM f
+
+def parseCondEntry (s : String) : Option (String × (Int → Bool)) :=
+  match s.splitOn ":" with
+  | [n, k, t] => do let p ← parseCmp k (← t.toInt?); pure (n, p)
+  | _ => none
+
+def parseExtEntry (s : String) : Option (String × Option Bool) :=
+  match s.splitOn ":" with
+  | [n, "hi"] => some (n, some true)
+  | [n, "lo"] => some (n, some false)
+  | [n, "bad"] => some (n, none)
+  | _ => none
+
+def parseMaskRef (dims : List Nat) (s : String) : Option MaskRef :=
+  let cs := s.toList
+  match cs with
+  | 's' :: rest => (String.ofList rest).toNat?.map .saved
+  | 'l' :: bits =>
+    if bits.length = (cells dims).length ∧ bits.all (fun b => b == '0' || b == '1') then
+      let bs : List Bool := bits.map (· == '1')
+      some (.lit fun c => bs.getD ((cells dims).idxOf c) false)
+    else none
+  | _ => none
+
+def kv (key s : String) : Option String :=
+  if s.startsWith (key ++ "=") then some (s.drop (key.length + 1)).toString else none
+
+def parseOp (dims : List Nat) : List String → Option Op
+  | ["create", n, dt, d] => if isDtype dt then do pure (.create n (← d.toInt?)) else none
+  | ["new", n, dm, dt, d] => if isDtype dt then do pure (.newLayer n (← parseDims dm) (← d.toInt?)) else none
+  | ["attach", l] => do pure (.attach (← l.toNat?))
+  | ["detach", n] => some (.detach n)
+  | ["lset", l, c, v] => do pure (.layerSet (← l.toNat?) (← parseCoord c) (← v.toInt?))
+  | ["lget", l, c] => do pure (.layerGet (← l.toNat?) (← parseCoord c))
+  | ["cset", n, c, v] => do pure (.cellSet n (← parseCoord c) (← v.toInt?))
+  | ["cget", n, c] => do pure (.cellGet n (← parseCoord c))
+  | ["setcells", l, v, cond] => do pure (.setCells (← l.toNat?) (← v.toInt?) (← parseCond cond))
+  | ["modify", l, kind, op, v, cond] => do
+      pure (.modifyCells (← l.toNat?) (← parseOper kind op v) (← parseCond cond))
+  | ["modcell", l, c, kind, op, v] => do
+      pure (.modifyCell (← l.toNat?) (← parseCoord c) (← parseOper kind op v))
+  | ["grab", h, l] => do pure (.grab (← h.toNat?) (← l.toNat?))
+  | ["hget", h, c] => do pure (.hget (← h.toNat?) (← parseCoord c))
+  | ["hset", h, c, v] => do pure (.hset (← h.toNat?) (← parseCoord c) (← v.toInt?))
+  | ["hdump", h] => do pure (.hdump (← h.toNat?))
+  | ["dump", l] => do pure (.dump (← l.toNat?))
+  | ["dumpn", n] => some (.dumpName n)
+  | ["lsel", l, cond] => do pure (.layerSelect (← l.toNat?) (← parsePred cond))
+  | ["agg", l, k] => do
+      let k ← (match k with | "sum" => some Agg.sum | "max" => some Agg.max | "min" => some Agg.min | _ => none)
+      pure (.aggregate (← l.toNat?) k)
+  | ["place", a, c] => do pure (.place (← a.toNat?) (← parseCoord c))
+  | ["move", a, c] => do pure (.move (← a.toNat?) (← parseCoord c))
+  | ["remove", a] => do pure (.remove (← a.toNat?))
+  | ["empties"] => some .empties
+  | ["select", oe, conds, ext, masks, save] => do
+      let oe ← kv "oe" oe
+      let oe ← (if oe = "1" then some true else if oe = "0" then some false else none)
+      let conds ← parseList (← kv "conds" conds) parseCondEntry
+      let ext ← parseList (← kv "ext" ext) parseExtEntry
+      let masks ← parseList (← kv "masks" masks) (parseMaskRef dims)
+      let save ← kv "save" save
+      let save ← (if save = "-" then some none else save.toNat?.map some)
+      pure (.select masks oe conds ext save)
+  | _ => none
+
+def fmtCoord (c : Coord) : String := ".".intercalate (c.map toString)
+
+def fmtBits (bs : List Bool) : String := String.ofList (bs.map fun b => if b then '1' else '0')
+
+def fmtInts (vs : List Int) : String := ",".intercalate (vs.map toString)
+
+def fmtWhy : Why → String
+  | .dims => "dims" | .exists => "exists" | .clash => "clash" | .ufunc => "ufunc" | .mode => "mode" | .empty => "empty"
+
+def fmtErr : Err → String
+  | .value w => "err Value " ++ fmtWhy w
+  | .key => "err Key"
+  | .attr => "err Attr"
+  | .index => "err Index"
+  | .full => "err Full"
+  | .placed => "err Placed"
+  | .notPlaced => "err NotPlaced"
+  | .noLayer => "err NoLayer"
+  | .noHandle => "err NoHandle"
+  | .noMask => "err NoMask"
+  | .impl => "err Impl"
+
+def fmtOut : Out → String
+  | .ok => "ok"
+  | .id n => s!"ok id={n}"
+  | .val v => s!"ok v={v}"
+  | .arr vs => "ok arr=" ++ fmtInts vs
+  | .sel l m => "ok list=" ++ ";".intercalate (l.map fmtCoord) ++ " mask=" ++ fmtBits m
+  | .emp view actual =>
+      "ok view=" ++ (match view with | none => "none" | some vs => fmtInts vs) ++ " actual=" ++ fmtBits actual
+  | .err e => fmtErr e
+
+def parseImpl : String → Option Impl
+  | "new" => some .new
+  | "single" => some .single
+  | "multi" => some .multi
+  | _ => none
+
+def stepLine (st : State) (ws : List String) : State × String :=
+  match ws with
+  | ["scenario", k, dims, cap, gridclass, torus] =>
+      -- grid class and torus flag only select which mesa class the harness instantiates
+      if !(["moore", "vonneumann", "hex", "-"].contains gridclass && ["0", "1"].contains torus) then (st, "bad-op") else
+      match parseImpl k, parseDims dims, cap.toNat? with
+      | some k, some dims, some cap => (init k dims cap, "ok")
+      | _, _, _ => (st, "bad-op")
+  | ws =>
+      match parseOp st.dims ws with
+      | none => (st, "bad-op")
+      | some op => let (st', o) := step st op; (st', fmtOut o)
+
+partial def loop (h : IO.FS.Stream) (out : IO.FS.Stream) (st : State) : IO Unit := do
+  let line ← h.getLine
+  if line.isEmpty then return ()
+  let (st', o) := stepLine st (words line.trimAscii.toString)
+  out.putStrLn o
+  loop h out st'
+
+def main : IO Unit := do
+  let out ← IO.getStdout
+  loop (← IO.getStdin) out (init .new [1, 1] 0)
+  out.flush
